@@ -186,6 +186,7 @@ def check_program(corpus, mod_ast, prog, sc, rng, V=3, features=None):
                "pushed": ({k: [rust_repr(t) for t in v] for k, v in dbB.items()} if dbB else None), "deadline_checks": ks}
         if sc.kind == "timeout":
             cex["interrupted_in_scc"] = sc.interrupted_sccs(model)
+            cex["strata_owning_all_aggregated_indices"] = sorted(sc.strata_owning_all_aggregated_indices(prog))
         if rec["problems"]:
             out.cexes.append((cex, rec))
             if out.cex is None:
@@ -224,6 +225,7 @@ def check_program(corpus, mod_ast, prog, sc, rng, V=3, features=None):
                 asg = sc.A.pin(dbA)
                 sc.pin_deadlines(asg, ks)
                 out.cex["interrupted_in_scc"] = sc.interrupted_sccs(asg)
+                out.cex["strata_owning_all_aggregated_indices"] = sorted(sc.strata_owning_all_aggregated_indices(prog))
             out.replay = rec
             out.status = "violation"
             out.detail = "found while validating the encoding: " + "; ".join(t for _, t in rec["problems"][:3])
